@@ -512,6 +512,9 @@ pub mod faults {
         pub count: AtomicUsize,
         pub fail_at: AtomicUsize,
         pub sticky: AtomicBool,
+        /// the failing call, if it is a write/append, first writes a prefix of its buffer:
+        /// 0 = nothing, 1 = one byte, 2 = half, 3 = all but one byte
+        pub torn: AtomicUsize,
         pub fired: Mutex<Vec<String>>,
     }
     impl FaultCtl {
@@ -530,8 +533,22 @@ pub mod faults {
     struct FaultFile { inner: Box<dyn RandomAccessFile>, ctl: Arc<FaultCtl>, path: PathBuf }
     impl Read for FaultFile { fn read(&mut self, b: &mut [u8]) -> io::Result<usize> { self.inner.read(b) } }
     impl Seek for FaultFile { fn seek(&mut self, p: SeekFrom) -> io::Result<u64> { self.inner.seek(p) } }
+    impl FaultFile {
+        /// a torn write: the first half of the buffer reaches the file, then the call fails
+        fn tear(&mut self, b: &[u8], append: bool) {
+            let at = self.ctl.fail_at.load(AO::SeqCst);
+            let t = self.ctl.torn.load(AO::SeqCst);
+            if t != 0 && self.ctl.count.load(AO::SeqCst) == at + 1 && b.len() > 1 {
+                let n = match t { 1 => 1, 2 => b.len() / 2, _ => b.len() - 1 };
+                let _ = if append { self.inner.append(&b[..n]) } else { self.inner.write(&b[..n]) };
+            }
+        }
+    }
     impl Write for FaultFile {
-        fn write(&mut self, b: &[u8]) -> io::Result<usize> { self.ctl.hit("write", &self.path)?; self.inner.write(b) }
+        fn write(&mut self, b: &[u8]) -> io::Result<usize> {
+            if let Err(e) = self.ctl.hit("write", &self.path) { self.tear(b, false); return Err(e); }
+            self.inner.write(b)
+        }
         fn flush(&mut self) -> io::Result<()> { self.inner.flush() }
     }
     impl ReadonlyRandomAccessFile for FaultFile {
@@ -539,7 +556,10 @@ pub mod faults {
         fn len(&self) -> io::Result<u64> { self.inner.len() }
     }
     impl RandomAccessFile for FaultFile {
-        fn append(&mut self, b: &[u8]) -> io::Result<usize> { self.ctl.hit("append", &self.path)?; self.inner.append(b) }
+        fn append(&mut self, b: &[u8]) -> io::Result<usize> {
+            if let Err(e) = self.ctl.hit("append", &self.path) { self.tear(b, true); return Err(e); }
+            self.inner.append(b)
+        }
     }
     impl FileSystem for FaultFs {
         fn get_name(&self) -> String { "FaultFs".to_string() }
@@ -598,8 +618,11 @@ pub mod faults {
     }
 
     /// Runs the history with the fault armed at counted call `fail_at` (None = no fault).
-    pub fn run(ops: &[DbOp], keys: &[Vec<u8>], fail_at: Option<usize>, sticky: bool, reuse: bool) -> Outcome {
-        let ctl = Arc::new(FaultCtl { count: AtomicUsize::new(0), fail_at: AtomicUsize::new(fail_at.unwrap_or(usize::MAX)), sticky: AtomicBool::new(sticky), fired: Mutex::new(vec![]) });
+    /// mode: "transient" (that call only), "sticky" (that call and all later ones), "torn1" / "torn" /
+    /// "tornm1" (sticky, and a failing write leaves one byte / the first half / all but the last byte
+    /// of its buffer in the file)
+    pub fn run(ops: &[DbOp], keys: &[Vec<u8>], fail_at: Option<usize>, mode: &str, reuse: bool) -> Outcome {
+        let ctl = Arc::new(FaultCtl { count: AtomicUsize::new(0), fail_at: AtomicUsize::new(fail_at.unwrap_or(usize::MAX)), sticky: AtomicBool::new(mode != "transient"), torn: AtomicUsize::new(match mode { "torn1" => 1, "torn" => 2, "tornm1" => 3, _ => 0 }), fired: Mutex::new(vec![]) });
         let mut options = DbOptions::with_memory_env();
         options.create_if_missing = true;
         options.reuse_log_files = reuse;
@@ -609,6 +632,8 @@ pub mod faults {
         let mut trace = vec![];
         let mut worlds: Vec<World> = vec![World::new()];
         let mut acked = 0usize;
+        // more failed writes than the set of allowed states can follow: nothing is judged afterwards
+        let mut overflow = false;
         let mut db = match DB::open(options.clone()) { Ok(d) => Some(d), Err(e) => { trace.push(format!("open -> Err {}", e)); None } };
         for (i, op) in ops.iter().enumerate() {
             let writes: Option<Vec<(Vec<u8>, Option<Vec<u8>>)>> = match op {
@@ -620,7 +645,7 @@ pub mod faults {
             if let DbOp::Reopen(_) = op {
                 drop(db.take());
                 db = match DB::open(options.clone()) { Ok(d) => Some(d), Err(e) => { trace.push(format!("op{} reopen -> Err {}", i, e)); None } };
-                if let Some(d) = db.as_ref() { check_reads(d, keys, &worlds, true, &format!("after op{} (reopen)", i), &mut bad, &mut trace); }
+                if let Some(d) = db.as_ref() { if !overflow { check_reads(d, keys, &worlds, true, &format!("after op{} (reopen)", i), &mut bad, &mut trace); } }
                 continue;
             }
             let d = match db.as_ref() { Some(d) => d, None => continue };
@@ -630,11 +655,12 @@ pub mod faults {
                     Ok(()) => { acked += 1; for w in worlds.iter_mut() { apply(w, &ws); } trace.push(format!("op{} write -> Ok", i)); }
                     Err(e) => {
                         trace.push(format!("op{} write -> Err {}", i, e));
-                        if worlds.len() <= 32 {
+                        if worlds.len() <= 2048 {
                             let mut more = worlds.clone();
                             for w in more.iter_mut() { apply(w, &ws); }
                             worlds.extend(more);
-                        }
+                            worlds.sort(); worlds.dedup();
+                        } else { overflow = true; }
                     }
                 }
             } else {
@@ -644,14 +670,31 @@ pub mod faults {
                     _ => {}
                 }
             }
-            check_reads(d, keys, &worlds, true, &format!("after op{}", i), &mut bad, &mut trace);
+            if !overflow { check_reads(d, keys, &worlds, true, &format!("after op{}", i), &mut bad, &mut trace); }
         }
         // the fault goes away; the database is reopened
         ctl.fail_at.store(usize::MAX, AO::SeqCst);
         drop(db.take());
         let calls = ctl.count.load(AO::SeqCst);
         match DB::open(options.clone()) {
-            Ok(d) => check_reads(&d, keys, &worlds, false, "after the fault is gone and the database is reopened", &mut bad, &mut trace),
+            Ok(d) => {
+                if !overflow { check_reads(&d, keys, &worlds, false, "after the fault is gone and the database is reopened", &mut bad, &mut trace); }
+                // the recovered database is usable: a further write succeeds and survives a clean reopen
+                let fresh = (b"~fresh".to_vec(), Some(b"1".to_vec()));
+                match d.apply(WriteOptions::default(), make_batch(&[fresh.clone()])) {
+                    Ok(()) => {
+                        for w in worlds.iter_mut() { apply(w, &[fresh.clone()]); }
+                        drop(d);
+                        let mut keys2 = keys.to_vec();
+                        keys2.push(fresh.0.clone());
+                        match DB::open(options.clone()) {
+                            Ok(d2) => { if !overflow { check_reads(&d2, &keys2, &worlds, false, "after a further write and a second clean reopen", &mut bad, &mut trace); } }
+                            Err(e) => bad.push(format!("after a further write the recovered database does not open again (`{}`)", e)),
+                        }
+                    }
+                    Err(e) => bad.push(format!("the recovered database (no fault active) rejects a further write: `{}`", e)),
+                }
+            }
             Err(e) => { if acked > 0 { bad.push(format!("after the fault is gone the database does not open (`{}`) although {} writes were acknowledged", e, acked)); } }
         }
         let fired = ctl.fired.lock().unwrap().clone();
